@@ -22,6 +22,7 @@ func checkC15(r *Run) {
 	r.Rule("R5", "the line is a function of the consumed newlines: only readChar moves the cursor and bumps the line (under ch == '\\n' of the byte just consumed); the scanner reads input only relative to the cursor", 1)
 	r.Rule("R6", "every statement node is stamped with the token that is current BEFORE its expression is parsed (the first token of the statement)", 1)
 	r.Rule("R7", "the recorded syntax errors reach the caller in recording order: nothing on the way sorts the message list (a string sort of 'line N:' prefixes is not shift invariant)", 1)
+	r.Rule("R8", "the error pipeline: every function of the root package between the parser / the top-level evaluator and the caller returns the error it received as the very same value (no wrapper puts text in front of 'line N:')", 1)
 	parserMessagesRule(r, "R1")
 	coreTopLevelRules(r, "", "R2")
 	curStmtRule(r, "R3")
@@ -29,6 +30,7 @@ func checkC15(r *Run) {
 	cursorOwnershipRule(r, "R5")
 	statementTokenRule(r, "R6")
 	messageOrderRule(r, "R7")
+	errorPipelineRule(r, "R8")
 }
 
 // errRecorder describes a parser method that records an error message built
